@@ -5,7 +5,7 @@ use syn::{parse_quote, spanned::Spanned, Expr, Field, FieldsNamed, Path, Result}
 use crate::{
     attr::{Attr, ContainerAttr, FieldAttr, Inflection, Optional, StructAttr},
     deps::Dependencies,
-    utils::{raw_name_to_ts_field, to_ts_ident},
+    utils::{escape_ts_string, escaped_ts_string, raw_name_to_ts_field, to_ts_ident},
     DerivedTS,
 };
 
@@ -17,6 +17,8 @@ pub(crate) fn named(attr: &StructAttr, ts_name: Expr, fields: &FieldsNamed) -> R
     let mut dependencies = Dependencies::new(crate_rename.clone());
 
     if let Some(tag) = &attr.tag {
+        let tag = escape_ts_string(tag);
+        let ts_name = escaped_ts_string(&ts_name);
         formatted_fields.push(quote! {
             format!("\"{}\": \"{}\",", #tag, #ts_name)
         });
